@@ -351,7 +351,7 @@ Run(T, o, cache0) ==
 
 \* C01 / C02 / C13 / C04 / C03: no stop, no fault
 Complete(T, o, R) ==
-    (o.stop = 0 /\ o.fail = 0) =>
+    (o.stop = 0 /\ o.fail = 0 /\ ~o.lockfail) =>
         /\ R.err = ""
         /\ IF o.op = "rowid"
              THEN LET ref == Reference(T, o)
@@ -361,7 +361,7 @@ Complete(T, o, R) ==
 
 \* C17: stopping after k rows yields exactly the first k, no further call, no error
 StopExact(T, o, R) ==
-    (o.stop > 0 /\ o.fail = 0 /\ o.op # "rowid") =>
+    (o.stop > 0 /\ o.fail = 0 /\ ~o.lockfail /\ o.op # "rowid") =>
         LET ref == Reference(T, o)
         IN  /\ R.err = ""
             /\ R.out = Take(ref, o.stop)
